@@ -242,8 +242,23 @@ def _inventory():
     return _inv_cache
 
 
+def _unit_roles(prog: Program) -> Set[FunctionInfo]:
+    """roles whose function *is* the unit the rules reason about whatever it is called and however it is written
+    (the routine that seeds the global generator): kept as functions even when new."""
+    out: Set[FunctionInfo] = set()
+    try:
+        from .roles import Roles
+
+        f = Roles(prog).seed_fn
+        if f is not None and f.name != "__init__" and not f.name.startswith("__"):
+            out.add(f)
+    except Exception:
+        pass
+    return out
+
+
 def _candidates(prog: Program):
-    anchors = _role_functions(prog)
+    anchors = _unit_roles(prog)
     lits = _checker_literals()
     known_names, known_bodies = _inventory()
     graph_sites: Dict[FunctionInfo, list] = {}
@@ -265,7 +280,7 @@ def _candidates(prog: Program):
         nm = f.name
         if not nm.startswith("_") or (nm.startswith("__") and nm.endswith("__")):
             continue
-        if nm in lits or nm in known_names or body_hash(f.node) in known_bodies:
+        if nm in lits or nm in known_names or body_hash(f.node) in known_bodies or f in anchors:
             continue  # a function of the reference tree (possibly renamed): the rules may be anchored in it
         # (a *new* helper is inlined even when role discovery, run on the un-normalised tree, picked it - e.g. the loop
         # of the initial design moved into a helper: after inlining the role is found where it was)
@@ -569,6 +584,46 @@ def expand_dict_wrappers(prog: Program) -> List[str]:
     return done
 
 
+def unroll_literal_generators(fn_node) -> int:
+    """``any(P(b) for b in (x, y, z))`` -> ``P(x) or P(y) or P(z)`` (``all`` -> ``and``), also when the tuple is held in a
+    local with a single literal definition.  Evaluation order and short-circuiting are the same."""
+    tuple_defs: Dict[str, list] = {}
+    for n in ast.walk(fn_node):
+        if isinstance(n, ast.Assign) and len(n.targets) == 1 and isinstance(n.targets[0], ast.Name):
+            tuple_defs.setdefault(n.targets[0].id, []).append(n.value)
+    count = [0]
+
+    class Sub(ast.NodeTransformer):
+        def __init__(self, name, repl):
+            self.name, self.repl = name, repl
+
+        def visit_Name(self, node):
+            if node.id == self.name and isinstance(node.ctx, ast.Load):
+                return copy.deepcopy(self.repl)
+            return node
+
+    class U(ast.NodeTransformer):
+        def visit_Call(self, node):
+            self.generic_visit(node)
+            if isinstance(node.func, ast.Name) and node.func.id in ("any", "all") and len(node.args) == 1 and not node.keywords and isinstance(node.args[0], ast.GeneratorExp):
+                ge = node.args[0]
+                if len(ge.generators) == 1 and not ge.generators[0].ifs and isinstance(ge.generators[0].target, ast.Name):
+                    it = ge.generators[0].iter
+                    if isinstance(it, ast.Name) and len(tuple_defs.get(it.id, [])) == 1:
+                        it = tuple_defs[it.id][0]
+                    if isinstance(it, (ast.Tuple, ast.List)) and 1 <= len(it.elts) <= 8 and not any(isinstance(e, ast.Starred) for e in it.elts):
+                        parts = [Sub(ge.generators[0].target.id, e).visit(copy.deepcopy(ge.elt)) for e in it.elts]
+                        new = parts[0] if len(parts) == 1 else ast.BoolOp(op=ast.Or() if node.func.id == "any" else ast.And(), values=parts)
+                        count[0] += 1
+                        return ast.copy_location(new, node)
+            return node
+
+    U().visit(fn_node)
+    if count[0]:
+        ast.fix_missing_locations(fn_node)
+    return count[0]
+
+
 CONTAINER_ATTRS = {"options", "optim_state", "function_logger", "iteration_history", "var_transf", "variable_transformer", "logger"}
 
 
@@ -716,13 +771,17 @@ def normalise(prog: Program) -> Tuple[Program, List[str]]:
         log += dw
         trees = {m.relpath: m.tree for m in prog.modules.values()}
         prog = Program(prog.root, override_trees=trees)
-    # container aliases
+    # container aliases, literal-tuple generators
     changed_alias = False
     for fn in list(prog.functions()):
         al = propagate_container_aliases(fn.node)
         if al:
             changed_alias = True
             log.append(f"{fn.qualname} (container aliases {', '.join(al)} expanded)")
+        ng = unroll_literal_generators(fn.node)
+        if ng:
+            changed_alias = True
+            log.append(f"{fn.qualname} ({ng} any/all over a literal tuple unrolled)")
     if changed_alias:
         trees = {m.relpath: m.tree for m in prog.modules.values()}
         prog = Program(prog.root, override_trees=trees)
